@@ -300,6 +300,8 @@ pub enum Kind {
     FeedPartial,
     /// `feed(ch)` for every char (no `feed_str`, so no trim / no change report)
     FeedChars,
+    /// one `feed_str` per character, every iterator drained
+    FeedSplit,
     /// `resize`, drained
     Resize,
     /// `resize`, dropped
@@ -423,6 +425,26 @@ pub fn apply(vt: &mut Vt, op: &Op) -> Applied {
                 vt.feed(c);
             }
             Applied::default()
+        }
+        Kind::FeedSplit => {
+            let mut changed: Vec<usize> = vec![];
+            let mut scrollback: Vec<Line> = vec![];
+            let mut b = [0u8; 4];
+            for c in op.text.chars() {
+                let ch = vt.feed_str(c.encode_utf8(&mut b));
+                for l in &ch.lines {
+                    if !changed.contains(l) {
+                        changed.push(*l);
+                    }
+                }
+                scrollback.extend(ch.scrollback);
+            }
+            changed.sort();
+            Applied {
+                changed,
+                scrollback,
+                reported: true,
+            }
         }
         Kind::Resize | Kind::ResizeDrop => {
             let (c, r) = match op.cmd {
